@@ -34,7 +34,7 @@ def ensure():
     lock = open(os.path.join(OUT, '.lock'), 'w')
     fcntl.flock(lock, fcntl.LOCK_EX)
     try:
-        h = hashlib.sha256()
+        h = hashlib.sha256(b'recipe-2')
         for f in sorted(os.listdir(SRC)):
             h.update(f.encode()); h.update(open(os.path.join(SRC, f), 'rb').read())
         stamp = os.path.join(OUT, 'stamp')
@@ -43,6 +43,8 @@ def ensure():
         for fam, (src, lang, versions, extra) in FAMILIES.items():
             for v in versions:
                 libs['%s_v%d' % (fam, v)] = os.path.join(OUT, 'lib%s_v%d.so' % (fam, v))
+        for fam in FAMILIES:
+            libs['%s_nodbg' % fam] = os.path.join(OUT, 'lib%s_nodbg.so' % fam)      # version 1 of the family without debug info
         libs['shapes_clang_v0'] = os.path.join(OUT, 'libshapes_clang_v0.so')
         libs['cxx_clang_v0'] = os.path.join(OUT, 'libcxx_clang_v0.so')
         libs['fnptr_nodebug_v0'] = os.path.join(OUT, 'libfnptr_nodebug_v0.so')
@@ -54,6 +56,7 @@ def ensure():
             for v in versions:
                 _sh([cc, '-g', '-O0', '-fPIC', '-shared', '-DV=%d' % v, '-Wl,-soname,lib%s.so.1' % fam,
                      os.path.join(SRC, src), '-o', libs['%s_v%d' % (fam, v)]] + extra)
+            _sh([cc, '-O0', '-fPIC', '-shared', '-DV=1', '-Wl,-soname,lib%s.so.1' % fam, os.path.join(SRC, src), '-o', libs['%s_nodbg' % fam]] + extra)
         _sh(['clang', '-g', '-O0', '-fPIC', '-shared', '-DV=0', '-Wl,-soname,libshapes.so.1', os.path.join(SRC, 'shapes.c'), '-o', libs['shapes_clang_v0']])
         _sh(['clang++', '-g', '-O0', '-fPIC', '-shared', '-DV=0', '-Wl,-soname,libcxx.so.1', os.path.join(SRC, 'cxx.cc'), '-o', libs['cxx_clang_v0']])
         _sh(['gcc', '-O1', '-fPIC', '-shared', '-DV=0', os.path.join(SRC, 'fnptr.c'), '-o', libs['fnptr_nodebug_v0']])
